@@ -89,10 +89,22 @@ fn is_decimal(s: &str) -> bool {
     s.bytes().all(|b| b.is_ascii_digit())
 }
 
+/// Whether the string contains an ASCII decimal digit at all.
+fn has_digit(s: &str) -> bool {
+    s.bytes().any(|b| b.is_ascii_digit())
+}
+
 impl FromStr for AttoTokens {
     type Err = EvmError;
 
     fn from_str(value_str: &str) -> Result<Self> {
+        // a string without any digit ("" or ".") denotes no amount
+        if !has_digit(value_str) {
+            return Err(EvmError::FailedToParseAttoToken(
+                "Can't parse token units".to_string(),
+            ));
+        }
+
         let mut itr = value_str.splitn(2, '.');
         let converted_units = {
             let units = itr
